@@ -100,6 +100,8 @@ class Interp:
                     self._block(st.orelse, env, fi)
             elif isinstance(st, ast.Pass):
                 continue
+            elif isinstance(st, ast.FunctionDef) and not st.decorator_list:
+                env[st.name] = ("closure", st, env)
             else:
                 raise Undecidable(f"statement {type(st).__name__} outside the fragment")
 
@@ -244,6 +246,8 @@ class Interp:
             return True
         if isinstance(e, (ast.ListComp, ast.GeneratorExp)):
             return self._comp(e, env, fi)
+        if isinstance(e, ast.SetComp):
+            return frozenset(self._comp(e, env, fi))
         if isinstance(e, ast.Lambda):
             return ("lambda", e, dict(env))
         if isinstance(e, ast.Call):
@@ -260,6 +264,8 @@ class Interp:
             raise Undecidable("nested comprehension")
         g = e.generators[0]
         it = self.ev(g.iter, env, fi)
+        if isinstance(it, (set, frozenset)):
+            it = sorted(it, key=repr)
         out = []
         for x in it:
             env2 = dict(env)
@@ -277,6 +283,11 @@ class Interp:
             ps = [a.arg for a in lam.args.args]
             env.update(zip(ps, args))
             return self.ev(lam.body, env, fi)
+        if isinstance(f, tuple) and f[0] == "closure":
+            node, cenv = f[1], f[2]
+            env = dict(cenv)
+            env.update(zip([a.arg for a in node.args.args], args))
+            return self.exec_block(node.body, env, fi)
         if isinstance(f, tuple) and f[0] == "func":
             callee = f[1]
             if getattr(callee, "rule", None) is not None:
@@ -318,6 +329,11 @@ class Interp:
             if name == "issubclass":
                 if isinstance(args[0], TypeV):
                     return self._matches(args[0].op, args[1])
+                a0 = args[0][1] if isinstance(args[0], tuple) and args[0] and args[0][0] == "class" else args[0]
+                a1 = args[1][1] if isinstance(args[1], tuple) and args[1] and args[1][0] == "class" else args[1]
+                if isinstance(a0, str) and isinstance(a1, str) and a0 in ALL and a1 in ALL and self.idx.has_cls(a0):
+                    # annotation classes: the hierarchy is read from the class definitions (PSD < SelfAdjoint, Unitary < Stiefel)
+                    return a1 in [c.name for c in self.idx.mro(self.idx.cls(a0))]
                 raise Undecidable("issubclass on a non-operator type")
             if name in ("all", "any"):
                 vals = [self.truth(x) for x in args[0]]
